@@ -2,6 +2,7 @@ import Driver.Tag
 import Driver.Utf
 import Driver.Lz4
 import Driver.Vm
+import Driver.Feat
 /-! `grdriver <mode>`: one input line → one output line (DESIGN.md §2 "line protocol") -/
 open Driver
 
@@ -25,5 +26,6 @@ def main (args : List String) : IO UInt32 := do
   | ["utf"] => loop stdin stdout Utf.step; return 0
   | ["lz4"] => loop stdin stdout Lz4.step; return 0
   | ["vm"] => loop stdin stdout Vm.step; return 0
+  | ["feat"] => loop stdin stdout Feat.step; return 0
   | ["lz4io"] => loopIO stdin stdout Lz4.stepIO; return 0
   | _ => IO.eprintln "usage: grdriver <mode>"; return 2
